@@ -38,6 +38,8 @@ def all_cells():
             outs.append(f"eager:{a}:{v}")
     # an eager (forced) retry followed by an ordinary failure of the next delivery
     outs += ["eager:force_retry:thenfail", "eager:retry:thenfail", "eager:force_retry:thenfail2"]
+    # the eager response comes from inside a dependency provider, before the actor body
+    outs += [f"depeager:{a}" for a in EAGER]
     cells = []
     for o, N, pos, rec, store in itertools.product(outs, (0, 1, 3), ("first", "middle", "last"), (False, True), (False, True)):
         if pos == "middle" and N < 2:
@@ -45,6 +47,8 @@ def all_cells():
         if pos == "last" and N == 0:
             continue
         if o in ("badpayload", "depfail") and pos != "first":
+            continue
+        if o.startswith("depeager") and (pos != "first" or (o.endswith(":retry") and N == 0)):
             continue
         if o.endswith(":res") or o.endswith(":exc"):
             if not store:
@@ -100,6 +104,8 @@ def build_script(cell):
         steps.append({"do": "ok", "d": 5.0})
     elif o in ("badpayload", "depfail"):
         steps.append({"do": "ok"})
+    elif o.startswith("depeager"):
+        return {"eager_in_dep": o.split(":")[1]}
     else:
         _, action, variant = o.split(":")
         st = {"do": "eager", "action": action, "pre": []}
@@ -144,6 +150,13 @@ def classify_step(cell, st, attempt):
 
 
 def expected(cell, attempt, nth=1):
+    if cell["o"].startswith("depeager"):
+        action = cell["o"].split(":")[1]
+        if nth == 1 and attempt == 0:
+            return {"ack": "ack", "nack": "nack", "reject": "reject", "retry": "requeue:retry", "force_retry": "requeue:retry",
+                    "reschedule": "requeue:reschedule"}[action], "eager"
+        # later deliveries (after reject / reschedule / the retry's hour-long back-off): the guard lets the actor run
+        return ("requeue:reschedule" if cell["rec"] else "ack"), "ladder"
     script = cell["_script"]["by_attempt"]
     st = script[min(attempt, len(script) - 1)]
     if nth > 1 and "then" in st:
@@ -182,10 +195,11 @@ async def scenario(loop, case, out, stats, fps, samples):
         r = w.router(retry_policy=policy)
         w.scripted_actor(r, "act")
 
-        from rv.actors import register_failing_actors
+        from rv.actors import register_failing_actors, register_guarded_actor
 
         log = w.log
         register_failing_actors(r, log)
+        register_guarded_actor(r, log)
         await w.conn.message_broker.queue_declare("default")
         cells = case["cells"]
         ids = {}
@@ -193,7 +207,7 @@ async def scenario(loop, case, out, stats, fps, samples):
             cell["_script"] = build_script(cell)
             id_ = f"c{i:03d}"
             ids[id_] = cell
-            name = {"badpayload": "strict", "depfail": "depact"}.get(cell["o"], "act")
+            name = {"badpayload": "strict", "depfail": "depact"}.get(cell["o"], "guarded" if cell["o"].startswith("depeager") else "act")
             kw = dict(retries=cell["N"], timeout=timedelta(seconds=1), store_result=cell["store"])
             if cell["rec"]:
                 kw["deferred_by"] = timedelta(seconds=PERIOD)
@@ -239,8 +253,8 @@ async def scenario(loop, case, out, stats, fps, samples):
                         s["cont"] += 1
             nth_by_attempt = collections.Counter()
             for n, s in enumerate(segs):
-                no_actor = cell["o"] in ("badpayload", "depfail")
-                if s["starts"]:
+                no_actor = cell["o"] in ("badpayload", "depfail") or cell["o"].startswith("depeager")
+                if s["starts"] or (cell["o"].startswith("depeager") and s["disp"]):
                     nth_by_attempt[s["tried"]] += 1
                 if s["starts"] == 0 and not s["disp"] and not (no_actor and n < len(segs) - 1):
                     stats["deliveries_not_started"] += 1
